@@ -122,6 +122,26 @@ Example C07_ex_augment :
 Proof. eexists. split; [vm_compute; reflexivity|]. split; vm_compute; reflexivity. Qed.
 Print Assumptions C07_dispatch_from_source.
 
+(* the model is additionally tied to the source by TRANSLATION: the Gallina
+   definitions that harness/cmd/genkstatus generates on this run from
+   generic.go, status.go, core.go, util.go (Generated/KStatusSrc.v, one per Go
+   function, syntax-directed) compute what the model computes, on all trees and
+   for both clock values.  `to_outcome` maps a ( *Result, error ) pair to the
+   model's outcome (the error wins, (nil, nil) is None).  So the theorems above,
+   which are about `compute`, hold of the generated Compute, and a semantic
+   change of the generic checks or of the precedence chain breaks this
+   obligation. *)
+From CliUtils Require Model.KStatusSrcLib Generated.KStatusSrc Proofs.KStatusSrcAgree.
+
+Theorem C07_source_translation_agrees : forall (j : jv) (w : bool),
+  KStatusSrcLib.to_outcome (KStatusSrc.checkGeneration j) = check_generation j /\
+  KStatusSrcLib.to_outcome (KStatusSrc.checkGenericProperties j) = check_generic j /\
+  KStatusSrcLib.to_outcome (KStatusSrc.checkReadyCondition j) = check_ready_condition j /\
+  KStatusSrc.GetLegacyConditionsFn j = KStatusSrcLib.assoc (kind_key j) src_legacy_types /\
+  KStatusSrcLib.to_outcome (KStatusSrc.Compute j w) = Some (compute j w).
+Proof. exact KStatusSrcAgree.src_generic_agrees. Qed.
+Print Assumptions C07_source_translation_agrees.
+
 (* ==== At the status readers ===================================================
    The StatusPoller, the StatusWatcher and the applier do not call
    status.Compute directly but statusreaders.NewDefaultStatusReader, whose
